@@ -92,6 +92,13 @@ def run(res, tier, seed, shard, nshards):
         jobs.append(("headcuts", name, st, CALLS[1]))
     for i in range(40 if tier == "quick" else 400):
         jobs.append(("long", i))
+    ext = [("len16", R.encode(R.BINARY, bytes(range(126)) ) + R.encode(R.TEXT, b"after")),
+           ("len16-masked", R.encode(R.TEXT, b"x" * 300, key=b"\x11\x22\x33\x44") + R.encode(R.PING, b"p") + R.encode(R.TEXT, b"after")),
+           ("len64", R.encode(R.BINARY, b"\x5a" * 65536) + R.encode(R.TEXT, b"after")),
+           ("len64-masked-frag", R.encode(R.BINARY, b"q" * 70001, fin=0, key=b"\x01\x02\x03\x04") + R.encode(R.CONT, b"tail") + R.encode(R.TEXT, b"after"))]
+    for name, st in ext:
+        for call in CALLS[:3]:
+            jobs.append(("hdr-timeouts", name, st, call))
 
     def scen():
         for ji, job in enumerate(jobs):
@@ -125,6 +132,23 @@ def run(res, tier, seed, shard, nshards):
                         cuts = sorted({rng.randrange(1, n) for _ in range(3)})
                         plan = {rng.randrange(0, len(cuts) + 1): rng.randrange(1, 4) for _ in range(2)}
                         one(res, W, st, call, cuts, plan, None, (name, "timeout-rand"))
+            elif job[0] == "hdr-timeouts":
+                # byte-wise delivery of the first 16 bytes (header, extended length, mask key, first payload bytes), the
+                # rest in one piece; a timeout (multiplicity 1-2) before every one of those bytes, and pairs of positions
+                _, name, st, call = job
+                k = 0
+                head = list(range(1, 17))
+                for pos in range(0, 17):
+                    for mult in (1, 2):
+                        k += 1
+                        if (k + ji) % nshards == shard:
+                            one(res, W, st, call, head, {pos: mult}, None, (name, "hdr-timeout1"))
+                for a, b in itertools.combinations(range(0, 17), 2):
+                    k += 1
+                    if tier == "quick" and k % 3:
+                        continue
+                    if (k + ji) % nshards == shard:
+                        one(res, W, st, call, head, {a: 1, b: 1}, None, (name, "hdr-timeout2"))
             elif job[0] == "eagain":
                 # the EAGAIN / SSLWantRead branch of the transport read: spurious (data follows at once) and followed by
                 # a real gap longer than the socket timeout (= a receive timeout at that byte position)
